@@ -227,15 +227,22 @@ func MergeErrors(err, other error) error {
 	}
 	e := asError(err)
 	o := asError(other)
-	if e.Name == "error" {
-		e.Name = o.Name
-	}
 
 	// Combine error lineage. We only ever put original errors into the history slice, so we
 	// don't need to worry about gaining intermediate merges.
 	//
-	// Do this before we modify ourselves, as History() may include us!
-	e.history = append(e.History(), o.History()...)
+	// Do this before we modify ourselves, as History() may include us! In that
+	// case record a copy of e so that the entry keeps the original name and
+	// message instead of aliasing the merged error.
+	hist := e.history
+	if len(hist) == 0 {
+		orig := *e
+		hist = []*ServiceError{&orig}
+	}
+	if e.Name == "error" {
+		e.Name = o.Name
+	}
+	e.history = append(hist, o.History()...)
 	e.err = errors.Join(e.err, o.err)
 
 	e.Message = e.Message + "; " + o.Message
